@@ -61,6 +61,11 @@ CUCKOO_TABLE_NAME *CUCKOO(_read)(FILE *fp) {
     errno = ENOMEM;
     return NULL;
   }
+  // As documented (and as in _init), a table created through the C interface
+  // has no minimum load factor and no maximum hashpower, so that no policy
+  // exception can escape to the C caller.
+  tbl->t.minimum_load_factor(0);
+  tbl->t.maximum_hashpower(libcuckoo::NO_MAXIMUM_HASHPOWER);
   CUCKOO_KEY_ALIAS key;
   CUCKOO_MAPPED_ALIAS mapped;
   for (size_t i = 0; i < tbl_size; ++i) {
